@@ -141,8 +141,12 @@ type hReader struct {
 	aof   bool
 }
 
+// hReaderBuf is the size of the buffered reader the replay reads the stream through (scenarios may
+// set it to the 1 MiB the tool's channels use; 4096 keeps refills frequent).
+var hReaderBuf = 4096
+
 func newHReader(g *gate, runID string, left, size int64, aof bool) *hReader {
-	return &hReader{g: g, br: bufio.NewReaderSize(g, 4096), left: left, size: size, runID: runID, aof: aof}
+	return &hReader{g: g, br: bufio.NewReaderSize(g, hReaderBuf), left: left, size: size, runID: runID, aof: aof}
 }
 
 func (r *hReader) Start(wait usync.WaitCloser) {}
